@@ -32,6 +32,11 @@ Definition same_kind (x : octx) (h : N) (p : path) : bool :=
   end.
 Definition is_dir (d : list dump_entry) (p : path) : bool :=
   match d_get d p with Some e => kind_eqb (d_kind e) KDir | None => false end.
+(* a proper prefix of p is a symbolic link in the tree: the backend resolves p through it, so whether p "exists" is a
+   matter of the link's target (the aliasing caveat of DESIGN 10.3); the tree oracle has no opinion then *)
+Definition through_link (d : list dump_entry) (p : path) : bool :=
+  existsb (fun k => match d_get d (firstn k p) with Some e => kind_eqb (d_kind e) KLink | None => false end)
+          (seq 1 (length p - 1)).
 Definition has_kids (d : list dump_entry) (p : path) : bool := existsb (fun e : dump_entry => is_child p (fst e)) d.
 Definition good (n : name) : bool := (validate_name n =? st_ok) && negb (has_dotdot_sub n).
 
@@ -64,7 +69,8 @@ Definition expect (x : octx) : option bool :=
       | None => None end
   | RGetattr h | RReaddir h _ _ | RReaddirplus h _ _ _ =>
       match g_get g h with
-      | Some p => match hs_req (i_step (oc_step x)) with
+      | Some p => if through_link d p then None else
+                  match hs_req (i_step (oc_step x)) with
                   | RGetattr _ => Some (exists_ d p)
                   | _ => if exists_ d p then Some (is_dir d p) else None
                   end
